@@ -116,6 +116,9 @@ def strategy(tier):
         else:
             r["dep"] = "no"
         r["zero"] = draw(st.sampled_from(["no"] * 7 + ["col", "all"])) if allow_zero else "no"
+        # magnitude of the right-hand side: the solve is linear in b, so a load of 1e-12 or 1e6 is solved as accurately
+        # (relative to itself) as one of order 1; "cols" scales the columns of a block differently
+        r["bscale"] = draw(st.sampled_from([1.0, 1.0, 1.0, 1.0, 1e-9, 1e-12, 1e6, "cols"]))
         return r
 
     @st.composite
@@ -285,6 +288,11 @@ def make_rhs(spec, n, rng):
         b[:, int(rng.integers(0, k))] = 0.0
     elif spec["zero"] == "all":
         b[:] = 0.0
+    bs = spec.get("bscale", 1.0)
+    if bs == "cols":
+        b = b * np.array([1.0, 1e-9, 1e6, 1e-4])[:k][None, :]
+    elif bs != 1.0:
+        b = b * bs
     if spec["shape"] == "v":
         b = b[:, 0].copy()
     return b
@@ -469,6 +477,8 @@ def check_case(case):
             labels.append("rhs:dependent")
         if s["rhs"]["zero"] != "no":
             labels.append("rhs:zero_" + s["rhs"]["zero"])
+        if s["rhs"].get("bscale", 1.0) != 1.0:
+            labels.append(f"rhs:scale_{s['rhs']['bscale']}")
         if x0 is not None:
             labels.append("x0:" + s["x0"])
         differs = tr == "N" or (tr == "T" and not is_sym) or (tr == "H" and not is_herm)
